@@ -331,6 +331,16 @@ func (g *gen) report(c int) {
 func (g *gen) oddObs(local addr, v6 bool) (addr, string) {
 	good, _ := g.goodObs(local)
 	good.Rest = local.Rest
+	if v6 && g.p(0.12) {
+		// a loopback or NAT64 address spelled with a zone in front: still loopback, still NAT64
+		good.Zone = []string{"eth0", "1"}[g.pick(2)]
+		if g.p(0.7) {
+			good.TW.IP = ip("64:ff9b::c633:6401")
+			return good, "nat64-zoned"
+		}
+		good.TW.IP = ip("::1")
+		return good, "loopback-zoned"
+	}
 	switch g.pick(11) {
 	case 0:
 		if !local.TW.IP.IsUnspecified() {
